@@ -367,9 +367,11 @@ def callback_robustness(ctx, rng, loop):
             notif_unknown_iid = bytes([0x11, 0x36]) + idb + seal(2, 999, b"\x01", aid=idb)
             notif_known = bytes([0x11, 0x36]) + idb + seal(3, 11, b"\x01", aid=idb)
             payloads = [good[:k] for k in range(len(good) + 1)] + [notif_unknown_iid, notif_known, bytes([0x11]), bytes([0x11, 0x36]) + idb, b"", bytes([0x07, 1, 2]), bytes(rng.randrange(256) for _ in range(20))]
-            for data in payloads:
+            shapes = [{76: data} for data in payloads] + [{}, {76: b""}, {77: good}, {76: b"", 77: good}, {6: b"\x06"}]
+            for md in shapes:
+                data = md.get(76, b"")
                 a = MagicMock()
-                a.manufacturer_data = {76: data} if data else {}
+                a.manufacturer_data = md
                 a.rssi = -50
                 d = MagicMock()
                 d.name = rng.choice(["dev", None, ""])
@@ -379,7 +381,7 @@ def callback_robustness(ctx, rng, loop):
                     ctl._device_detected(d, a)
                 except Exception as e:  # noqa: BLE001
                     ctx.violation(f"callback/ble/{pstate}/{type(e).__name__}", f"_device_detected raised {type(e).__name__} on {hx(data)[:60]} with pairing state {pstate}", {"stream": "callback", "pairing": pstate, "data": hx(data)})
-                ctx.nontrivial.add(("callback", pstate, data))
+                ctx.nontrivial.add(("callback", pstate, tuple(sorted(md)), data))
         # mDNS browser callback with malformed records and a loaded pairing
         ipctl = IpController(char_cache=CharacteristicCacheMemory(), zeroconf_instance=MagicMock())
         for props in ({}, {"id": None}, {"id": "AA:BB", "c#": "x"}, {"ID": "aa:bb:cc:dd:ee:07", "C#": "2"}, {"id": "aa:bb:cc:dd:ee:07", "ci": "abc"}, {"id": "aa:bb:cc:dd:ee:07", "sf": ""}):
